@@ -50,6 +50,21 @@ def check(ctx):
     conns = lc.split_conns(events)
     lc.trace_conn(ctx, conns, "c13")
     ctx.sample({"from": "scenario", "events": [[e["p"], e["ev"], e.get("name"), e.get("kind"), e.get("wait")] for e in events if e["ev"] in ("scenario", "cmd_ret", "gate", "close")][:14]})
+    # custom key function, one key the empty string: departed keys are not-exist at once for callers without a time-out too
+    kt = os.path.join(ctx.scratch, "c13_key.ndjson")
+    rc, err, kev = lc.run_live(ctx, ["live-c13key", kt], timeout=600)
+    lc.crash_check(ctx, rc, err, "live-c13key")
+    na = 0
+    for e in kev:
+        if e["ev"] == "cmd_stranded":
+            ctx.violation("caller-stranded scenario=departed-key key=%r" % e.get("key", "?"), "SendActiveMessage(k=%s) for a departed key had not returned" % e.get("k"), {"kind": "live-c13key", "event": e})
+        if e["ev"] == "assert":
+            na += 1
+            if not e["ok"]:
+                ctx.violation("%s key=%r" % (e["what"], e.get("key")), "live-c13key: %s" % json.dumps(e), {"kind": "live-c13key", "event": e})
+    if na < 20:
+        raise vlib.ToolFailure("live-c13key recorded %d assertions" % na)
+    ctx.note_impl("departed-key-calls-with-custom-key-function", na)
     # a terminal that never reads: its writer stuck in Write with commands outstanding, queued and refused, then EOF / reset
     st = os.path.join(ctx.scratch, "c13_stall.ndjson")
     r = ctx.vh(["live-c13stall", st], timeout=400)
